@@ -57,6 +57,17 @@ CHECKS = {
         "explanation": "BeginBlock of storage (RunRewardBlock) and jklmint (BlockMint) executed from their real code; the BeginBlock/EndBlock methods of filetree, notifications, oracle and rns have empty bodies (x/*/module.go) and EndBlock of storage and jklmint return an empty slice",
         "outside": ["BeginBlock/EndBlock of cosmos-sdk, ibc-go and wasmd modules, the ante handler, baseapp", "states larger than the bounds"],
     },
+    "C07": {
+        "groups": [{"pkgs": "./x/storage/keeper", "fns": ["VH_C07_*"], "opts": {"j": 3, "w": 5}}],
+        "covers": ["C07/post-succeeds", "C07/post-fails", "C07/plan-post-succeeds", "C07/pay-once-post-succeeds", "C07/delete-removes-a-plan-paid-file", "C07/drop-removes-a-plan-paid-file"],
+        "bounds": {"steps": "one step (PostFile / DeleteFile / reward-block drop) from an arbitrary well-formed state, observed at an arbitrary account and an arbitrary file key; histories of any length follow by induction on used = sum of footprints",
+                   "provers listed on a file": "1 (removal steps), 0 (posting, where prover lists play no part)",
+                   "FileSize x MaxProofs": "MaxProofs in {1,3,2^62} x any int64 FileSize (quick); thorough adds MaxProofs in {2,5,2^31,2^63-1} and FileSize in {1,1000,2^40,2^62,2^62+1,2^63-1} x any int64 MaxProofs",
+                   "pay-once posts": "ReferralCommission = PolRatio = 25, no gauge record with the derived id yet"},
+        "assumptions": A_COMMON + A_STORE + A_BANK + ["inductive hypothesis: 0 <= SpaceUsed <= SpaceAvailable on the records read, and a live plan-paid file's footprint is included in its owner's SpaceUsed",
+                       "cut: Keeper.GetStorageCostKbs returns an arbitrary non-negative amount (pricing is C04's subject)"],
+        "outside": ["BuyStorage/UpgradeStorage carry SpaceUsed and refuse to shrink below it (asserted in C04's harness family, not here)", "genesis import of inconsistent payment records"],
+    },
     "C08": {
         "groups": [{"pkgs": "./x/rns/keeper", "fns": ["VH_C08_*"]}],
         "covers": ["C08/buy-succeeds", "C08/buy-fails", "C08/buy-ownership-moved"],
